@@ -98,7 +98,7 @@ func c01pRun(t *testing.T, rec *vu.Recorder, script []c01pOp) {
 		switch o.Op {
 		case "node":
 			nodeSeq++
-			n := &corev1.Node{Status: corev1.NodeStatus{Allocatable: c03RLd(o.Delta, c01pDims)}}
+			n := &corev1.Node{Status: corev1.NodeStatus{Allocatable: c03NodeRL(o.Delta, c01pDims)}}
 			n.Name = fmt.Sprintf("node%d", nodeSeq)
 			gp.OnNodeAdd(n)
 			ev["delta"] = c01pV(o.Delta)
@@ -196,7 +196,7 @@ func c01pRandom(rng *rand.Rand, n int) []c01pOp {
 			quotas[name] = qs{parent: o.Parent, isParent: o.IsParent}
 			out = append(out, o)
 		case k == 3:
-			out = append(out, c01pOp{Op: "node", Delta: vec(6)})
+			out = append(out, c01pOp{Op: "node", Delta: c03Milli(rng, vec(6))})
 		case k < 7:
 			out = append(out, c01pOp{Op: "migrateCycle"})
 		default:
